@@ -485,6 +485,136 @@ def renumber(fn):
     return ast.parse(ast.unparse(ast.fix_missing_locations(fn))).body[0]
 
 
+def _pure_arg(v) -> bool:
+    if isinstance(v, ast.Constant) or _is_path(v):
+        return True
+    if isinstance(v, ast.Subscript):
+        return _pure_arg(v.value) and _pure_arg(v.slice)
+    if isinstance(v, ast.UnaryOp) and isinstance(v.op, (ast.USub, ast.UAdd)):
+        return _pure_arg(v.operand)
+    return False
+
+
+class _ExprInline(ast.NodeTransformer):
+    """calls of helpers whose body is ONE `return <expression>` (no statement, no side effect of its own), with
+    side-effect-free arguments, are replaced by the expression — wherever they stand (conditions included)"""
+
+    def __init__(self, inliner, depth=0):
+        self.inl, self.depth = inliner, depth
+
+    def visit_Call(self, node):
+        self.generic_visit(node)
+        r = self.inl.resolve(node)
+        if r is None or self.depth > self.inl.max_depth:
+            return node
+        callee, is_method = r
+        body = list(callee.body)
+        if body and isinstance(body[0], ast.Expr) and isinstance(body[0].value, ast.Constant) and isinstance(body[0].value.value, str):
+            body = body[1:]
+        if len(body) != 1 or not isinstance(body[0], ast.Return) or body[0].value is None:
+            return node
+        try:
+            bound = self.inl._bind(callee, node, is_method)
+        except NoInline:
+            return node
+        if not all(_pure_arg(v) for v in bound.values()):
+            return node
+        expr = copy.deepcopy(body[0].value)
+        if any(isinstance(n, (ast.NamedExpr, ast.Lambda, ast.ListComp, ast.SetComp, ast.DictComp, ast.GeneratorExp, ast.Await,
+                              ast.Yield, ast.YieldFrom)) for n in ast.walk(expr)):
+            return node
+        self_name = callee.args.args[0].arg if is_method else None
+        mapping = dict(bound)
+        if self_name is not None and self_name != "self":
+            mapping[self_name] = ast.Name(id="self", ctx=ast.Load())
+        expr = _Subst(mapping).visit(ast.Expression(body=expr)).body
+        expr = _ExprInline(self.inl, self.depth + 1).visit(ast.Expression(body=expr)).body
+        return _fix(expr, node)
+
+
+def inline_expr_calls(fn, resolve):
+    return _ExprInline(Inliner(resolve)).visit(fn)
+
+
+def lower_returns(fn):
+    """a function that returns nothing: guard clauses / early `return` -> nested if/else (left alone when a `return`
+    sits inside a loop / try / with block or returns a value)"""
+    if any(isinstance(n, ast.Return) and n.value is not None and not (isinstance(n.value, ast.Constant) and n.value.value is None)
+           for n in ast.walk(fn)):
+        return fn
+    if not any(isinstance(n, ast.Return) for n in ast.walk(fn)):
+        return fn
+    try:
+        body = _lower(copy.deepcopy(fn.body), lambda v: [])
+    except NoInline:
+        return fn
+    fn.body = body or [_fix(ast.Pass(), fn)]
+    ast.fix_missing_locations(fn)
+    return fn
+
+
+LOG_ROOTS = {"logging", "logger", "log", "warnings", "_logger", "LOGGER"}
+
+
+def is_logging(st) -> bool:
+    """`logging.debug(...)`, `logger.info(...)`, `warnings.warn(...)` as a statement"""
+    if not (isinstance(st, ast.Expr) and isinstance(st.value, ast.Call)):
+        return False
+    f = st.value.func
+    while isinstance(f, ast.Attribute):
+        f = f.value
+    return isinstance(f, ast.Name) and f.id in LOG_ROOTS and isinstance(st.value.func, ast.Attribute)
+
+
+def counter_to_enumerate(fn):
+    """`i = 0` ... `for x in it: ...; i += 1`  ->  `for i, x in enumerate(it): ...`  when `i` is bound nowhere else, the
+    increment is the last statement of the loop body, the loop has no `continue`, and `i` is not read after the loop"""
+    def blocks(node):
+        for field in ("body", "orelse", "finalbody"):
+            blk = getattr(node, field, None)
+            if isinstance(blk, list) and blk and isinstance(blk[0], ast.stmt):
+                yield blk
+                for st in blk:
+                    yield from blocks(st)
+        if isinstance(node, ast.Try):
+            for h in node.handlers:
+                yield h.body
+                for st in h.body:
+                    yield from blocks(st)
+    for blk in list(blocks(fn)):
+        for li, loop in enumerate(blk):
+            if not isinstance(loop, ast.For) or not loop.body:
+                continue
+            last = loop.body[-1]
+            if not (isinstance(last, ast.AugAssign) and isinstance(last.op, ast.Add) and isinstance(last.target, ast.Name)
+                    and isinstance(last.value, ast.Constant) and last.value.value == 1 and type(last.value.value) is int):
+                continue
+            name = last.target.id
+            inits = [(j, st) for j, st in enumerate(blk[:li])
+                     if isinstance(st, (ast.Assign, ast.AnnAssign)) and st.value is not None
+                     and isinstance(st.targets[0] if isinstance(st, ast.Assign) else st.target, ast.Name)
+                     and (st.targets[0] if isinstance(st, ast.Assign) else st.target).id == name]
+            binds = _names_assigned(fn).get(name, 0)
+            if len(inits) != 1 or binds != 3:          # init + the in-place update (counted twice)
+                continue
+            j, init = inits[0]
+            if not (isinstance(init.value, ast.Constant) and init.value.value == 0 and type(init.value.value) is int):
+                continue
+            if any(isinstance(n, ast.Continue) for st in loop.body for n in ast.walk(st)):
+                continue
+            used_between = any(isinstance(n, ast.Name) and n.id == name for st in blk[j + 1:li] for n in ast.walk(st))
+            used_after = any(isinstance(n, ast.Name) and n.id == name for st in blk[li + 1:] + loop.orelse for n in ast.walk(st))
+            if used_between or used_after:
+                continue
+            loop.target = ast.Tuple(elts=[ast.Name(id=name, ctx=ast.Store()), loop.target], ctx=ast.Store())
+            loop.iter = ast.Call(func=ast.Name(id="enumerate", ctx=ast.Load()), args=[loop.iter], keywords=[])
+            loop.body = loop.body[:-1] or [ast.Pass()]
+            del blk[j]
+            ast.fix_missing_locations(fn)
+            return counter_to_enumerate(fn)
+    return fn
+
+
 def self_writes(fn) -> set:
     """names of attributes of `self` assigned (directly) in `fn`"""
     out = set()
